@@ -393,6 +393,12 @@ func c18One(c *run.Ctx, fl c18Flow, db, jwt bool, mk func() (*c18State, bool), r
 	// (1) no tokens although a storage call failed unexpectedly
 	if benign && !(fl.refused && (f1.kind == "generic" || f1.kind == "serialization")) {
 		c.Unspecified("read-answered-not-found-or-inactive")
+	} else if !fl.token {
+		// the statement's first sentence is about TOKEN requests; at the authorization / push endpoints a storage failure the
+		// handler tolerates (for instance a failed collision probe before the write) is judged by the fail-closed clauses below
+		if res.ok {
+			c.Unspecified("non-token-endpoint-answered-despite-a-failed-storage-call")
+		}
 	} else if res.tokens || (res.ok && fl.name != "revocation") {
 		viol("tokens-despite-storage-failure", fmt.Sprintf("flow=%s call=%s kind=%s", fl.name, target.Method, f1.kind), "the response carries a credential although a storage call failed: "+res.detail)
 	}
